@@ -43,6 +43,41 @@ const (
 	BaselineAdminNetworkPolicyList string = "BaselineAdminNetworkPolicyList" // a list with max 1 object according to apis/v1alpha
 )
 
+// API groups in which each relevant kind is defined (with the legacy groups old manifests still use);
+// a resource of another group whose kind merely has the same name (e.g. a serving.knative.dev Service or Route)
+// is not a relevant resource
+var relevantKindGroups = map[string][]string{
+	NetworkPolicy:              {"networking.k8s.io", "extensions"},
+	Namespace:                  {""},
+	Pod:                        {""},
+	ReplicaSet:                 {"apps", "extensions"},
+	ReplicationController:      {""},
+	Deployment:                 {"apps", "extensions"},
+	StatefulSet:                {"apps"},
+	DaemonSet:                  {"apps", "extensions"},
+	Job:                        {"batch"},
+	CronJob:                    {"batch"},
+	Service:                    {""},
+	Route:                      {"route.openshift.io", ""},
+	Ingress:                    {"networking.k8s.io", "extensions"},
+	AdminNetworkPolicy:         {"policy.networking.k8s.io"},
+	BaselineAdminNetworkPolicy: {"policy.networking.k8s.io"},
+}
+
+// isKindOfRelevantGroup returns false only for a relevant kind name that comes from an API group which does not define it
+func isKindOfRelevantGroup(kind, group string) bool {
+	groups, ok := relevantKindGroups[kind]
+	if !ok {
+		return true
+	}
+	for _, g := range groups {
+		if g == group {
+			return true
+		}
+	}
+	return false
+}
+
 // K8sObject holds a an object kind and a pointer of the relevant object
 type K8sObject struct {
 	Kind string
